@@ -32,7 +32,8 @@ KNOWN_SUPPRESSED = 'C06-suppressed-edge-matches-excluded'
 def corpus_list():
     names = ('seq-choice', 'plus-sep-obj', 'eolterm', 'ung-sep', 'suppress-str', 'suppress-match-rule',
              'abstract', 'abstract-seq', 'nested-obj', 'recursive', 'comment-line', 'comment-block',
-             'noskipws-rule', 'ws-rule', 'optional-attrs', 'bool-assign', 'objref', 'kinds-chain')
+             'noskipws-rule', 'ws-rule', 'optional-attrs', 'bool-assign', 'objref', 'kinds-chain',
+             'kw-same-keyword-suppressed-later')
     extra = [corpus.G('suppressed-edges', [corpus.Rule('M', corpus.Asg('bs', '+=', corpus.Ref('B'))),
                                            corpus.Rule('B', corpus.S(corpus.Sup(corpus.Str('<')),
                                                                      corpus.Asg('n', '=', corpus.INT),
